@@ -282,6 +282,7 @@ type ownership struct {
 	// document fields that link into the schema: a load of one yields schema memory
 	linkFields map[string]bool
 	// fresh-result summaries for in-module functions returning shared types
+	inProgress map[ssa.Value]bool // values whose ownership is being decided (a call fed, through a variable, by its own result)
 }
 
 func newOwnership(p *Program) *ownership {
@@ -322,6 +323,14 @@ func isFresh(v ssa.Value) bool {
 // ownedReason says why the object reached by the chain of v may be schema memory ("" if it is not).
 // Flow-insensitive, type- and field-based; a fresh allocation in the function is never owned.
 func (o *ownership) ownedReason(v ssa.Value) string {
+	if o.inProgress == nil {
+		o.inProgress = map[ssa.Value]bool{}
+	}
+	if o.inProgress[v] {
+		return ""
+	}
+	o.inProgress[v] = true
+	defer delete(o.inProgress, v)
 	for _, c := range chase(v) {
 		if r := o.chainOwned(c); r != "" {
 			return r
